@@ -92,94 +92,102 @@ func c11Seam(r *core.Report) {
 	const absent, older, newer = 0, 1, 2
 	names := []string{"absent", "older-than-entry", "newer-than-entry"}
 	var hits, fresh int64
-	for _, sh := range shapes {
-		n := 1 + len(sh.marks)
-		total := 1
-		for i := 0; i < n; i++ {
-			total *= 3
-		}
-		for code := 0; code < total; code++ {
-			st := make([]int, n)
-			for i, c := 0, code; i < n; i, c = i+1, c/3 {
-				st[i] = c % 3
+	for _, rd := range []string{"CachedDatastore", "CachedTupleReader"} {
+		for _, sh := range shapes {
+			n := 1 + len(sh.marks)
+			total := 1
+			for i := 0; i < n; i++ {
+				total *= 3
 			}
-			mkeys := append([]keys.Key{storage.InvalidIteratorCacheKey(store)}, sh.marks...)
-			mem := memory.New()
-			ctx := context.Background()
-			if err := mem.Write(ctx, store, nil, sh.before); err != nil {
-				r.Violate("harness-seam-setup", err.Error(), nil)
-				return
-			}
-			cache := cachex.New()
-			var wg sync.WaitGroup
-			cds := storagewrappers.NewCachedDatastore(ctx, mem, cache, 100, time.Hour, &singleflight.Group{}, &wg)
-			set := func(which int) {
-				now := time.Now()
-				for i, k := range mkeys {
-					if st[i] == which {
-						cache.Set(k, &storage.InvalidEntityCacheEntry{LastModified: now}, time.Hour)
+			for code := 0; code < total; code++ {
+				st := make([]int, n)
+				for i, c := 0, code; i < n; i, c = i+1, c/3 {
+					st[i] = c % 3
+				}
+				mkeys := append([]keys.Key{storage.InvalidIteratorCacheKey(store)}, sh.marks...)
+				mem := memory.New()
+				ctx := context.Background()
+				if err := mem.Write(ctx, store, nil, sh.before); err != nil {
+					r.Violate("harness-seam-setup", err.Error(), nil)
+					return
+				}
+				cache := cachex.New()
+				var wg sync.WaitGroup
+				var cds storage.RelationshipTupleReader
+				if rd == "CachedDatastore" {
+					cds = storagewrappers.NewCachedDatastore(ctx, mem, cache, 100, time.Hour, &singleflight.Group{}, &wg)
+				} else {
+					// the reader of the weighted-graph Check has its own copy of the marker logic (tryGetFromCache)
+					cds = storagewrappers.NewCachedTupleReader(ctx, mem, cache, 100, time.Hour, &singleflight.Group{}, &wg, time.Second)
+				}
+				set := func(which int) {
+					now := time.Now()
+					for i, k := range mkeys {
+						if st[i] == which {
+							cache.Set(k, &storage.InvalidEntityCacheEntry{LastModified: now}, time.Hour)
+						}
 					}
 				}
-			}
-			set(older)
-			time.Sleep(200 * time.Microsecond)
-			it, err := sh.read(ctx, cds)
-			if err != nil {
-				r.Violate("harness-seam-setup", err.Error(), nil)
-				return
-			}
-			first, _ := drain(it)
-			wg.Wait()
-			if err := mem.Write(ctx, store, nil, []*openfgav1.TupleKey{sh.after}); err != nil {
-				r.Violate("harness-seam-setup", err.Error(), nil)
-				return
-			}
-			time.Sleep(200 * time.Microsecond)
-			set(newer)
-			it, err = sh.read(ctx, cds)
-			if err != nil {
-				r.Violate("cached-read-failed", err.Error(), nil)
-				continue
-			}
-			got, _ := drain(it)
-			wg.Wait()
-			mem.Close()
-			it2, _ := sh.read(ctx, memoryOf(sh.before, sh.after, store))
-			want, _ := drain(it2)
-			r.Eval(1)
-			var ms []string
-			anyNewer := false
-			for i := range mkeys {
-				ms = append(ms, names[st[i]])
-				anyNewer = anyNewer || st[i] == newer
-			}
-			c := seamCase{Shape: sh.name, Markers: ms, Got: got, Want: want}
-			r.Nontrivial(core.Hash("c11seam", sh.name, fmt.Sprint(st)))
-			switch {
-			case anyNewer && got != want:
-				which := 0
+				set(older)
+				time.Sleep(200 * time.Microsecond)
+				it, err := sh.read(ctx, cds)
+				if err != nil {
+					r.Violate("harness-seam-setup", err.Error(), nil)
+					return
+				}
+				first, _ := drain(it)
+				wg.Wait()
+				if err := mem.Write(ctx, store, nil, []*openfgav1.TupleKey{sh.after}); err != nil {
+					r.Violate("harness-seam-setup", err.Error(), nil)
+					return
+				}
+				time.Sleep(200 * time.Microsecond)
+				set(newer)
+				it, err = sh.read(ctx, cds)
+				if err != nil {
+					r.Violate("cached-read-failed", err.Error(), nil)
+					continue
+				}
+				got, _ := drain(it)
+				wg.Wait()
+				mem.Close()
+				it2, _ := sh.read(ctx, memoryOf(sh.before, sh.after, store))
+				want, _ := drain(it2)
+				r.Eval(1)
+				var ms []string
+				anyNewer := false
 				for i := range mkeys {
-					if st[i] == newer {
-						which = i
+					ms = append(ms, names[st[i]])
+					anyNewer = anyNewer || st[i] == newer
+				}
+				c := seamCase{Shape: rd + " " + sh.name, Markers: ms, Got: got, Want: want}
+				r.Nontrivial(core.Hash("c11seam", rd, sh.name, fmt.Sprint(st)))
+				switch {
+				case anyNewer && got != want:
+					which := 0
+					for i := range mkeys {
+						if st[i] == newer {
+							which = i
+						}
 					}
+					pos := "store-wide"
+					if which > 0 {
+						pos = fmt.Sprintf("entity-key-%d-of-%d", which, len(sh.marks))
+					}
+					r.Violate("seam/stale-entry-served-although-an-invalidation-marker-is-newer/"+rd+"/"+pos, fmt.Sprintf("%s with markers %v: the cached read returned [%s] (the entry populated before the write, [%s]) although a marker newer than the entry exists; the store holds [%s]", sh.name, ms, got, first, want), c)
+				case got == want:
+					fresh++
+				default:
+					hits++ // no newer marker: the cached (now stale) entry may be served
 				}
-				pos := "store-wide"
-				if which > 0 {
-					pos = fmt.Sprintf("entity-key-%d-of-%d", which, len(sh.marks))
+				if code == total-1 || code == 5 {
+					r.Sample(c)
 				}
-				r.Violate("seam/stale-entry-served-although-an-invalidation-marker-is-newer/"+pos, fmt.Sprintf("%s with markers %v: the cached read returned [%s] (the entry populated before the write, [%s]) although a marker newer than the entry exists; the store holds [%s]", sh.name, ms, got, first, want), c)
-			case got == want:
-				fresh++
-			default:
-				hits++ // no newer marker: the cached (now stale) entry may be served
-			}
-			if code == total-1 || code == 5 {
-				r.Sample(c)
 			}
 		}
 	}
 	r.Set("invalidation_marker_seam", map[string]any{"read_shapes": len(shapes), "cases_answered_from_cache": hits, "cases_answered_fresh": fresh,
-		"what": "real CachedDatastore over memory + harness cache; every {absent, older, newer} assignment to the store-wide marker and the per-entity markers of reads consulting 1, 2 and 3 per-entity keys; a read must not serve its entry when any marker is newer"})
+		"what": "real CachedDatastore and CachedTupleReader over memory + harness cache; every {absent, older, newer} assignment to the store-wide marker and the per-entity markers of reads consulting 1, 2 and 3 per-entity keys; a read must not serve its entry when any marker is newer"})
 	if hits == 0 {
 		r.Violate("harness-seam-vacuous", "no case was answered from the cache: the seam enumeration does not exercise cached entries", nil)
 	}
